@@ -31,7 +31,12 @@ func init() {
 			"label normalisation reference: spec 6.3 with a hand-written full-case-folding table for the characters of the alphabet (Unicode CaseFolding.txt), independent of x/text",
 			"raw unescaped brackets inside labels are not generated; invalid labels are the empty and the whitespace-only ones",
 		},
-		SelfTest: ref.LabelSelfTest,
+		SelfTest: func() error {
+			if err := ref.RefDefSelfTest(); err != nil {
+				return err
+			}
+			return ref.LabelSelfTest()
+		},
 		Run: func(c *Ctx) {
 			nu, nd := c.Pick(3, 4), c.Pick(2, 3)
 			c.Explore("label-pairs", fmt.Sprintf("use labels of <=%d tokens x definition labels of <=%d tokens over %q", nu, nd, spLabel.Tokens), -1, nu+nd, func(x *X) {
@@ -45,6 +50,7 @@ func init() {
 				d := string(x.Tokens(spLabelNul, ndn))
 				c12Pair(x, u, d)
 			})
+			c.Inputs(spDefGram, c.Pick(6, 7), c12DefGrammar)
 			c.Explore("ordering", "all sequences of <=4 segments with one use and 1-3 competing definitions; a segment is the use (shortcut, collapsed, full reference or collapsed image; in a paragraph or as an ATX heading), a definition at top level / in a quote / in a list item / in a list item in a quote / twice in one paragraph, or (at most once) one root container holding a tree of quotes and list items of depth <=3 with definitions at different depths in every order; with and without a final line ending", -1, 4, c12Ordering)
 			for _, p := range []planEntry{{spaces.I, 4, 5}, {spaces.XRef, 5, 6}, {spaces.XLink, 5, 6}, {spaces.L, 3, 4}, {spaces.XNulRef, 5, 6}, {spaces.XDefs, 5, 6}, {spaces.XRefTail, 5, 6}} {
 				sp := p.sp
@@ -373,4 +379,105 @@ func c12Closure(x *X, in []byte) {
 	}
 	x.Outcome(tree.Hash64(tree.Dump(nil, refs, tree.Refs)) ^ tree.HashBytes(in))
 	x.Sample(q(in))
+}
+
+// ---- definition grammar (spec 4.7) -----------------------------------------------------
+
+var spDefGram = spaces.Space{Name: "X-defgram", Doc: "what follows a label and a colon at the start of a paragraph: destinations, titles in three quoting styles (complete and unterminated), further labels and colons, text, white space, line endings",
+	Tokens: []string{"[a]", ":", " ", "\n", "/u", "<u v>", "<", "\"t\"", "'t'", "(t)", "\"t", "x"}, Prefix: "[a]:", Suffix: "\n"}
+
+func init() { spaces.All = append(spaces.All, spDefGram) }
+
+// c12DefGrammar: the document is one source paragraph that begins with "[a]:".
+// ref.RefDefs (a transcription of spec 4.7, self-tested on the spec's examples)
+// says how many definitions stand at its start, with which destination and
+// title, and whether paragraph text remains; the root blocks and the reference
+// map must say the same.
+func c12DefGrammar(x *X, in []byte) {
+	doc := string(in)
+	for i, l := range strings.Split(strings.TrimSuffix(doc, "\n"), "\n") {
+		if strings.TrimSpace(l) == "" {
+			x.Count("defgram_skipped_blank_line")
+			return
+		}
+		if t := strings.TrimLeft(l, " "); i > 0 && (len(l)-len(t) < 4) && (ref.HTMLBlockStart(l) >= 1 && ref.HTMLBlockStart(l) <= 6) {
+			x.Count("defgram_skipped_html_block")
+			return
+		}
+	}
+	for _, v := range append([][]byte{in}, eolVariants(in)...) {
+		if !c12DefGrammarOne(x, v) {
+			return
+		}
+	}
+}
+
+func squeezeNL(s string) string {
+	ls := strings.FieldsFunc(s, func(r rune) bool { return r == '\n' || r == '\r' })
+	for i := range ls {
+		if i > 0 {
+			ls[i] = strings.TrimLeft(ls[i], " \t")
+		}
+	}
+	return strings.Join(ls, "\n")
+}
+
+func c12DefGrammarOne(x *X, in []byte) bool {
+	doc := string(in)
+	want, rest := ref.RefDefs(doc)
+	wantPara := strings.TrimSpace(doc[rest:]) != ""
+	blocks, refs := cm.Parse(clone(in))
+	x.Validated()
+	var got []ref.RefDef
+	gotPara := false
+	shape := ""
+	for _, b := range blocks {
+		switch b.Kind() {
+		case cm.LinkReferenceDefinitionKind:
+			if gotPara {
+				shape = "a definition after the paragraph"
+			}
+			d := ref.RefDef{Label: "a"}
+			for i := 0; i < b.ChildCount(); i++ {
+				if c := b.Child(i).Inline(); c != nil {
+					switch c.Kind() {
+					case cm.LinkDestinationKind:
+						d.Dest = c.Text(b.Source)
+					case cm.LinkTitleKind:
+						d.Title, d.HasTitle = squeezeNL(c.Text(b.Source)), true
+					}
+				}
+			}
+			got = append(got, d)
+		case cm.ParagraphKind:
+			if gotPara {
+				shape = "two paragraphs"
+			}
+			gotPara = true
+		default:
+			shape = fmt.Sprintf("a root block of kind %v", b.Kind())
+		}
+	}
+	for i := range want {
+		want[i].Label = "a"
+		want[i].Title = squeezeNL(want[i].Title)
+	}
+	if shape != "" || fmt.Sprintf("%q", got) != fmt.Sprintf("%q", want) || gotPara != wantPara {
+		x.Fail("definition-grammar", "", in, "%q: the root blocks are definitions %q, paragraph=%v %s; spec 4.7 gives definitions %q, remaining paragraph text=%v (%q)", doc, got, gotPara, shape, want, wantPara, doc[rest:])
+		return false
+	}
+	if len(want) > 0 {
+		d, ok := refs["a"]
+		if !ok || len(refs) != 1 || d.Destination != want[0].Dest || squeezeNL(d.Title) != want[0].Title || d.TitlePresent != want[0].HasTitle {
+			x.Fail("definition-grammar-map", "", in, "%q: reference map %v; the first definition is %q", doc, refs, want[0])
+			return false
+		}
+		x.Nontrivial()
+	} else if len(refs) != 0 {
+		x.Fail("definition-grammar-map", "", in, "%q: reference map %v although the paragraph begins with no definition", doc, refs)
+		return false
+	}
+	x.Outcome(tree.Hash64(fmt.Sprintf("%q %v", want, wantPara)))
+	x.Sample(fmt.Sprintf("%q -> %q rest=%v", doc, want, wantPara))
+	return true
 }
